@@ -192,7 +192,7 @@ Proof. vm_compute. repeat split. Qed.
 (* non-vacuity: two sessions, backlog 1; one conn delivered and closed twice, one lost to closeCh and
    Closed by the accept goroutine, one received by listener.Close's drain; both sessions end *)
 Example C19_example_run :
-  let evs := [SessionUp; SessionUp; StreamIn 0; StreamIn 1; Wrap 0; Enqueue 0; PostCheck 0; Wrap 1; StreamIn 0;
+  let evs := [RawAccept; RawAccept; SessionUp; SessionUp; StreamIn 0; StreamIn 1; Wrap 0; Enqueue 0; PostCheck 0; Wrap 1; StreamIn 0;
               Accept; Enqueue 1; PostCheck 1; Wrap 0; LCall; LStep 0; LStep 0; Lose 0; LStep 0; LStep 0; CloseTaken 2;
               CloseTaken 1; LStep 0; WClose 0; WClose 0] in
   let st := run evs (init 1) in
@@ -204,18 +204,35 @@ Proof. vm_compute. repeat split. Qed.
 
 (* regression: the two histories that refuted the statement before the repair *)
 Example C19_regression_conn_left_in_backlog :
-  let evs := [SessionUp; StreamIn 0; Wrap 0; Enqueue 0; PostCheck 0; LCall; LStep 0; LStep 0; LStep 0; LStep 0; CloseTaken 0; LStep 0] in
+  let evs := [RawAccept; RawAccept; SessionUp; StreamIn 0; Wrap 0; Enqueue 0; PostCheck 0; LCall; LStep 0; LStep 0; LStep 0; LStep 0; CloseTaken 0; LStep 0] in
   let st := run evs (init 1) in
   accepts (init 1) evs = true /\ at_rest st = true /\ lreleased st = true /\ delivered st = [] /\
   sclosed (sess_of st 0%nat) = true.
 Proof. vm_compute. repeat split. Qed.
 
 Example C19_regression_conn_lost_to_closeCh :
-  let evs := [SessionUp; StreamIn 0; Wrap 0; Enqueue 0; PostCheck 0; StreamIn 0; Wrap 0; LCall; LStep 0; LStep 0; Lose 0;
+  let evs := [RawAccept; RawAccept; SessionUp; StreamIn 0; Wrap 0; Enqueue 0; PostCheck 0; StreamIn 0; Wrap 0; LCall; LStep 0; LStep 0; Lose 0;
               LStep 0; LStep 0; LStep 0; CloseTaken 1; CloseTaken 0] in
   let st := run evs (init 1) in
   accepts (init 1) evs = true /\ at_rest st = true /\ lreleased st = true /\ delivered st = [] /\
   sclosed (sess_of st 0%nat) = true.
+Proof. vm_compute. repeat split. Qed.
+
+(* the closed-test must sit in ONE critical section with the registration, AFTER the handshake: a session whose
+   handshake completes after listener.Close is closed on the spot and never registered (first example, the real
+   machine); with the test moved before the handshake (VARIANT run_check_before_handshake) a Close that falls
+   into the handshake window leaves a session registered in the closed listener with a reference nobody
+   releases: at rest, after Close, no conn was ever handed out - and the session stays open *)
+Example C19_handshake_completing_after_close_is_rejected :
+  let st := run [RawAccept; LCall; LStep 0; LStep 0; LStep 0; LStep 0; SessionUp] (init 4) in
+  at_rest st = true /\ lreleased st = true /\ nsess st = 1%nat /\
+  registered (sess_of st 0%nat) = false /\ in_map (sess_of st 0%nat) = false /\ sclosed (sess_of st 0%nat) = true.
+Proof. vm_compute. repeat split. Qed.
+
+Example C19_closed_test_before_handshake_refutes_sessions_end :
+  let st := run_check_before_handshake [RawAccept; LCall; LStep 0; LStep 0; LStep 0; LStep 0; SessionUp] (init 4) in
+  at_rest st = true /\ lreleased st = true /\ delivered st = [] /\
+  in_map (sess_of st 0%nat) = true /\ refs (sess_of st 0%nat) = 1 /\ sclosed (sess_of st 0%nat) = false.
 Proof. vm_compute. repeat split. Qed.
 
 (* the CAS in streamWrapper.Close is essential: with Close split into check / stream.Close / mark + Done, two
@@ -225,7 +242,7 @@ Proof. vm_compute. repeat split. Qed.
    conn 1 - makes the counter negative: panic.  (WClose in the real model is one CAS-guarded step:
    a second Close is a no-op, see C19_example_run.) *)
 Example C19_split_close_refutes_refcount :
-  let st0 := run [SessionUp; StreamIn 0; StreamIn 0; Wrap 0; Enqueue 0; PostCheck 0; Accept; Wrap 0; Enqueue 0; PostCheck 0; Accept;
+  let st0 := run [RawAccept; RawAccept; SessionUp; StreamIn 0; StreamIn 0; Wrap 0; Enqueue 0; PostCheck 0; Accept; Wrap 0; Enqueue 0; PostCheck 0; Accept;
                   LCall; LStep 0; LStep 0; LStep 0; LStep 0] (init 4) in
   let st2 := wclose_finish (wclose_finish st0 0) 0 in
   let st3 := wclose_finish st2 1 in
@@ -242,7 +259,7 @@ Proof. vm_compute. repeat split. Qed.
    is false for that order; the harness ties the real order to the model through a hook inside the raw
    listener's Close (observation ORawClose). *)
 Example C19_drain_before_signal_refutes_sessions_end :
-  let evs := [SessionUp; StreamIn 0; Wrap 0; Enqueue 0; PostCheck 0; Accept;     (* conn 0 delivered and held *)
+  let evs := [RawAccept; RawAccept; SessionUp; StreamIn 0; Wrap 0; Enqueue 0; PostCheck 0; Accept;     (* conn 0 delivered and held *)
               LCall; LStep 0; LStep 0;                                           (* CAS; drain (empty) *)
               StreamIn 0; Wrap 0; Enqueue 0; PostCheck 0;                        (* a stream arrives: closeCh still open *)
               LStep 0; LStep 0;                                                  (* close(closeCh); release *)
@@ -254,7 +271,7 @@ Proof. vm_compute. repeat split. Qed.
 
 (* the race the repair has to survive: the enqueue wins the select AFTER listener.Close drained *)
 Example C19_regression_enqueue_after_drain :
-  let evs := [SessionUp; StreamIn 0; Wrap 0; LCall; LStep 0; LStep 0; LStep 0; LStep 0; Enqueue 0; PostCheck 0; GDrain 0;
+  let evs := [RawAccept; RawAccept; SessionUp; StreamIn 0; Wrap 0; LCall; LStep 0; LStep 0; LStep 0; LStep 0; Enqueue 0; PostCheck 0; GDrain 0;
               GDrain 0; CloseTaken 0] in
   let st := run evs (init 1) in
   accepts (init 1) evs = true /\ at_rest st = true /\ lreleased st = true /\ sclosed (sess_of st 0%nat) = true.
